@@ -12,6 +12,11 @@
 //   - with the library's own verifiers: rp.VerifyTokens over rp.NewRemoteKeySet fetching the provider's own
 //     /keys in-process, rp.VerifyIDToken over a static copy of /keys, op.VerifyAccessToken, and the provider's
 //     own AccessTokenVerifier.
+//
+// Two further dimensions put a second party into the process: the application's *op.Config variable may be shared
+// with a sibling tenant built before / after the provider (or wiped after use; drive.go buildEnv, siblingStep), and
+// the overlap part (overlap.go) serves the token request of another client while one is parked at each of its yield
+// points, over a storage that lends the same lists to both.
 package main
 
 import (
@@ -27,6 +32,7 @@ import (
 	"verif/internal/keys"
 	"verif/internal/mon"
 	"verif/internal/opdrv"
+	"verif/internal/sched"
 	"verif/internal/vclient"
 	"verif/internal/vstore"
 )
@@ -571,12 +577,32 @@ func (e *env) tokenExchange(requested string) {
 	e.judgeResponse(x, t, c)
 }
 
+// siblingStep drives one client_credentials grant on the sibling tenant (the provider built from the same config
+// variable as this one) and judges it like any other response, against the sibling's own store, keys and crypto key.
+func (e *env) siblingStep() {
+	s := e.sibling
+	if s == nil || e.aborted || s.aborted {
+		return
+	}
+	s.host, s.fwdHost, s.trace = e.host, e.fwdHost, nil
+	s.d.Client = "svc"
+	s.clientCredentials()
+}
+
 func runCase(run *ev.Run, caseIdx, router int) {
 	var e *env
 	pi := mon.Catch(func() {
 		e = newEnv(run, caseIdx, router)
 		if e == nil {
 			return
+		}
+		// the other tenant of a shared config variable issues a token of its own before or after this provider's flow
+		if e.sibling != nil {
+			if run.CaseRand(67, caseIdx).IntN(2) == 0 {
+				e.siblingStep()
+			} else {
+				defer e.siblingStep()
+			}
 		}
 		switch e.d.Flow {
 		case "code", "code_refresh":
@@ -642,13 +668,17 @@ func main() {
 	run.SetRule("one case = one fresh provider (dimensions: signing alg of keys.AllAlgs, key-set shape, rotation, crypto key, issuer strategy and Host/Forwarded headers, client skew, id-token lifetime, access TTL, access token type, userinfo assertion, storage extras, custom claims) driving one flow " +
 		"{code(+refresh x2), implicit id_token, implicit id_token token, device(+refresh), client_credentials, jwt-bearer, token-exchange requested access/refresh/id/unspecified} with conforming requests on both routers; " +
 		"the login UI / device approval page registers an audience on the underlying request {none, client, resource+client, client+resource, resource(s) without the client}; " +
+		"the application's *op.Config variable is a value of its own per provider, or ONE variable reused for a second tenant built after / before this provider with another CryptoKey written into it (the sibling tenant issues a client_credentials token of its own, judged against ITS store and keys), or wiped once the provider is built; " +
+		"overlap part: a storage that lends its own audience / amr / scope lists (same slices, 0-3 elements of spare capacity) to the device authorizations and auth requests of two clients; the token request of one (device-code or code exchange) is parked at EVERY yield point of its trace (internal/sched) while the other's is served completely; both answers judged like sequential ones; " +
 		"an evaluation is one judged token response; distinct = distinct vectors (router, step, flow, signing alg, key shape, token type, skew, id lifetime, scope class, assertion, extras, custom-claim class, issuer mode, client)")
 	run.Assume("vstore policy: userinfo subject is set for scope openid only; token exchange keeps the known scopes (or [openid]) and may impersonate; storage expirations are hours in the future",
 		"auth_time may be shifted back by the client skew; exp-iat must be lifetime + 2 x skew within 2 s (DESIGN 6a C06)",
 		"a storage-provided custom claim standing where the library sets no registered claim (nonce, acr, amr, at_hash, c_hash without their source) is grey; iss/sub/aud/exp/iat/azp/client_id must always be the library's own",
 		"JWT access token audience: equals the audience of the storage-owned request object (code, refresh, jwt-bearer, token exchange; DESIGN 6a); in the device grant the request object is the library's own, so the audience must contain the client and every audience the storage registered on the device authorization, and nothing else (order / repetition grey)",
 		"absence of c_hash in a code-exchange id_token and of user claims for granted scopes is grey (the statement is one-directional)",
-		"a conforming request that yields no tokens is inconclusive, not a violation (C06 speaks about issued tokens)")
+		"a conforming request that yields no tokens is inconclusive, not a violation (C06 speaks about issued tokens)",
+		"'the provider key' of an opaque token is the CryptoKey standing in the config the application handed to op.NewProvider at that moment; what the application writes into its config variable afterwards (another tenant's key, zeroes) is not this provider's key; only CryptoKey is ever rewritten",
+		"lists a storage hands out with its request objects stay the storage's: several request objects may carry the same slice, with spare capacity; a response served while another request is in flight is judged exactly like a sequential one (no clause depends on where the preemption was; a blocked preemption is counted, never failed)")
 	var mand []string
 	for _, rn := range opdrv.RouterNames {
 		for _, s := range []string{"code", "implicit", "refresh", "device", "client_credentials", "jwt_bearer", "token_exchange"} {
@@ -664,14 +694,32 @@ func main() {
 	for _, a := range keys.AllAlgs {
 		mand = append(mand, "alg:"+string(a))
 	}
+	// the application's config variable shared between two tenants / wiped after use: an opaque token judged in each stratum
+	for _, rn := range opdrv.RouterNames {
+		for _, m := range []string{"shared:next-tenant:main", "shared:next-tenant:sibling", "shared:prev-tenant:main", "shared:prev-tenant:sibling", "shared:wiped:main"} {
+			mand = append(mand, "shared_config:"+m+":opaque:"+rn)
+		}
+	}
+	mand = append(mand, overlapMandatory()...)
 	run.Mandatory(mand...)
+	sched.Install() // every span of the library, storage call and client / auth-request getter is a yield point (overlap.go)
 	n := run.N(5000, 60000)
-	if rc := run.ReplayCase(); rc >= 0 {
+	nOv := run.N(ovQuick, ovThorough)
+	if rc := run.ReplayCase(); rc >= ovBase {
+		runOverlapCase(run, int(rc)-ovBase, 0)
+		runOverlapCase(run, int(rc)-ovBase, 1)
+		run.Finish()
+	} else if rc >= 0 {
 		runCase(run, int(rc), 0)
 		runCase(run, int(rc), 1)
 		run.Finish()
 	}
-	ev.Parallel(n, 0, func(_ int, i int) {
+	ev.Parallel(n+nOv, 0, func(_ int, i int) {
+		if i >= n {
+			runOverlapCase(run, i-n, 0)
+			runOverlapCase(run, i-n, 1)
+			return
+		}
 		runCase(run, i, 0)
 		runCase(run, i, 1)
 	})
